@@ -17,13 +17,15 @@ struct _MMessageGateway {
 static inline MByteBuffer * GetNextPointer(const MByteBuffer * buf)
 {
    /* coverity[overrun-local] - okay because the MByteBuffer's allocation is greater than sizeof(MByteBuffer) */
-   return *((MByteBuffer **)(void *)(&buf->bytes));
+   MByteBuffer * ret;
+   memcpy(&ret, &buf->bytes, sizeof(ret));  /* (&buf->bytes) isn't necessarily pointer-aligned, so we mustn't dereference it as a pointer-to-pointer */
+   return ret;
 }
 
 static inline void SetNextPointer(MByteBuffer * buf, const MByteBuffer * next)
 {
    /* coverity[overrun-local] - okay because the MByteBuffer's allocation is greater than sizeof(MByteBuffer) */
-   *((const MByteBuffer **)(void *)(&buf->bytes)) = next;
+   memcpy(&buf->bytes, &next, sizeof(next));  /* (&buf->bytes) isn't necessarily pointer-aligned, so we mustn't dereference it as a pointer-to-pointer */
 }
 
 MMessageGateway * MGAllocMessageGateway(void)
